@@ -3696,6 +3696,13 @@ rfbSendCopyRegion(rfbClientPtr cl,
       rect.r.h = Swap16IfLE(h);
       rect.encoding = Swap32IfLE(rfbEncodingCopyRect);
 
+      if (cl->ublen + sz_rfbFramebufferUpdateRectHeader + sz_rfbCopyRect > UPDATE_BUF_SIZE) {
+          if (!rfbSendUpdateBuf(cl)) {
+              sraRgnReleaseIterator(i);
+              return FALSE;
+          }
+      }
+
       memcpy(&cl->updateBuf[cl->ublen], (char *)&rect,
 	     sz_rfbFramebufferUpdateRectHeader);
       cl->ublen += sz_rfbFramebufferUpdateRectHeader;
